@@ -63,20 +63,14 @@ Definition subset_ids (a b : list N) : bool := forallb (fun x => mem_id x b) a.
 Definition C09_one (es : list entry) (qr : C09_query) : list N * bool * bool :=
   let '(hs, top_k, no_sketch, M, U, n_any, got, complete) := qr in
   let q := query_of hs Small in
-  match final_filter unit unit_score unit_le tt es q true no_sketch top_k None with
-  | Ok cf =>
-      (* no filter before the sketch stage: the final filter IS the non-empty candidate set *)
-      let cands := match cf with Some l => l | None => [] end in
-      let expected := table_engine U cf in
-      let exact :=
-          match doc_limit top_k 0 (option_map set_len cf) with
-          | Ok l => complete && ((n_any <=? l) || match cf with Some c => set_len c <=? l | None => false end)
-          | _ => false
-          end in
-      (sort_ids cands, sketch_drops M None cf,
-       subset_ids got expected && (if exact then subset_ids expected got else true))
-  | _ => ([], false, false)
-  end.
+  let cf := final_filter unit unit_score unit_le tt es q true no_sketch top_k None in
+  (* no filter before the sketch stage: the final filter IS the non-empty candidate set *)
+  let cands := match cf with Some l => l | None => [] end in
+  let expected := table_engine U cf in
+  let l := engine_limit top_k 0 (option_map set_len cf) in
+  let exact := complete && ((n_any <=? l) || match cf with Some c => set_len c <=? l | None => false end) in
+  (sort_ids cands, sketch_drops M None cf,
+   subset_ids got expected && (if exact then subset_ids expected got else true)).
 
 Definition C09_run (i : C09_in) : C09_out :=
   let '(es, qs) := i in
